@@ -423,6 +423,11 @@ class Runner:
                         self.notes.append(('got-now', self.case.res[ins[2]][0], before, g.value, ins[3], env.now))
                 elif op == 'ret':
                     return ins[1]
+                elif op == 'retev':
+                    # the generator returns the event OBJECT a slot holds (the handle of a process it started, of a finished process,
+                    # of itself; a shared event, a timeout, a condition) - a return value like any other; None if the slot is empty
+                    self.notes.append(('retev', type(slots.get(ins[1])).__name__))
+                    return slots.get(ins[1])
                 elif op == 'raise':
                     raise_it = EXC[ins[1]](ins[2])
                     raise _UserRaise(raise_it)
